@@ -1615,7 +1615,7 @@ bundle_traits.append(("SlotRef", False))
 IMPL_FILLERS = ["    pub const SPAN: u32 = 1;\n", "    pub const NAME: &'static str = \"x\";\n", "    #[allow(dead_code)]\n    const HIDDEN: u8 = 2;\n"]
 
 
-def inversion(trait, impl_trait, mode, methods, delegate_ident=None, async_trait=False, path_targets=False, fillers=(), dual=False, nosend=False):
+def inversion(trait, impl_trait, mode, methods, delegate_ident=None, async_trait=False, path_targets=False, fillers=(), dual=False, nosend=False, core="ref", cross=False):
     """methods: list of (decl Fn with SELF deps, impl deps form, calls);
     path_targets: the impl blocks are written for `module::Type` paths while a
     same-named decoy type with same-named inherent functions is in scope"""
@@ -1644,7 +1644,7 @@ def inversion(trait, impl_trait, mode, methods, delegate_ident=None, async_trait
     if mode == "static":
         attr = f"#[entrait({impl_trait}, delegate_by = {delegate_ident}{ns})]"
     else:
-        attr = f"#[entrait({impl_trait}, delegate_by = ref{ns})]"
+        attr = f"#[entrait({impl_trait}, delegate_by = {'ref' if core == 'ref' else 'Borrow'}{ns})]"
     text = f"{cfg}{attr}\n{at}pub trait {trait} {{\n" + "".join(decl_text(d) for d in decls) + "}\n"
     targets = [f"{trait}TargetA", f"{trait}TargetB"]
     if path_targets:
@@ -1696,13 +1696,24 @@ def inversion(trait, impl_trait, mode, methods, delegate_ident=None, async_trait
         else:
             field = f"dyn_{trait.lower()}_{'ab'[which]}"
             APP_FIELDS_TYPED.append((field, target))
+            if cross:
+                APP_FIELDS_TYPED.append((field + "x", target))
             k = lookup_kind(trait)
             # entrait asks for `+ Sync` exactly when the trait has an async METHOD (an `#[async_trait]`
             # attribute on a trait with sync methods only does not count)
             sync = " + Sync" if any(d.is_async for d in decls) else ""
-            text += (f"{cfg}impl AsRef<dyn {impl_trait}<Self>{sync}> for App<{which}> {{\n"
-                     f"    fn as_ref(&self) -> &(dyn {impl_trait}<Self>{sync} + 'static) {{\n"
+            ctr, cfn = ("AsRef", "as_ref") if core == "ref" else ("::core::borrow::Borrow", "borrow")
+            text += (f"{cfg}impl {ctr}<dyn {impl_trait}<Self>{sync}> for App<{which}> {{\n"
+                     f"    fn {cfn}(&self) -> &(dyn {impl_trait}<Self>{sync} + 'static) {{\n"
                      f"        sim::lookup({k});\n        &self.{field}\n    }}\n}}\n")
+            if cross:
+                # a competing target handed out through the OTHER core trait (the other application's
+                # target, so every function id it reaches is the wrong one)
+                otr, ofn = ("::core::borrow::Borrow", "borrow") if core == "ref" else ("AsRef", "as_ref")
+                ofield = f"dyn_{trait.lower()}_{'ba'[which]}"
+                text += (f"{cfg}impl {otr}<dyn {impl_trait}<Self>{sync}> for App<{which}> {{\n"
+                         f"    fn {ofn}(&self) -> &(dyn {impl_trait}<Self>{sync} + 'static) {{\n"
+                         f"        &self.{ofield}x\n    }}\n}}\n")
             if dual:
                 osync = "" if sync else " + Sync"
                 text += (f"{cfg}impl AsRef<dyn {impl_trait}<Self>{osync}> for App<{which}> {{\n"
@@ -1868,6 +1879,20 @@ inversion("DynInvRen", "DynInvRenImpl", "dyn", [
     (_renamed("dren1", ("from", "to"), ("to", "from")), ("any", []), []),
     (_renamed("dren2", ("lhs", "rhs", "k"), ("rhs", "k", "lhs")), ("any", []), []),
 ])
+# dynamic selection spelled `delegate_by = Borrow` (older spelling), with a competing target
+# handed out through AsRef; and `ref` with a competing target handed out through Borrow
+inversion("BorrowInv", "BorrowInvImpl", "dyn", [
+    (Fn("bwi1", SELF, ["u64", "u64"]), ("impl", ["F0"]), ["f0"]),
+    (Fn("bwi_unit", SELF, ["u64"], ret="unit"), ("any", []), []),
+], core="borrow", cross=True)
+inversion("ABorrowInv", "ABorrowInvImpl", "dyn", [
+    (Fn("abwi1", SELF, ["u64", "u64"], is_async=True), ("impl", ["Af0"]), ["af0"]),
+    (Fn("abwi_sync", SELF, ["u64", "u64"]), ("any", []), []),
+], async_trait=True, core="borrow", cross=True)
+inversion("RefXInv", "RefXInvImpl", "dyn", [
+    (Fn("rxi1", SELF, ["u64", "u64"]), ("any", []), []),
+    (Fn("arxi1", SELF, ["u64", "u64"], is_async=True), ("impl", ["Af0"]), ["af0"]),
+], async_trait=True, cross=True)
 inversion("InvArgn", "InvArgnImpl", "static", [
     (Fn("iargn1", SELF, ["u64", "name=arg1:u64"]), ("any", []), []),
     (Fn("iargn2", SELF, ["name=arg2:u64", "u64"]), ("impl", ["F0"]), ["f0"]),
@@ -1953,6 +1978,8 @@ usingle(Fn("u_same", ("impl", ["U0"]), ["u64", "same:u64"], calls=["u0"]), "USam
 usingle(Fn("u_lt", ("impl", ["U0"]), ["refa", "u64"], ret="refarg", deps_lt=True, calls=["u0"]), "ULtMock")
 usingle(Fn("u_lt_gen", ("gen", ["U0"]), ["u64", "refa"], ret="refarg", deps_lt=True), "ULtGenMock")
 usingle(Fn("au_lt", ("impl", ["Au0"]), ["refa", "u64"], ret="refarg", deps_lt=True, is_async=True, calls=["au0"]), "AuLtMock")
+usingle(Fn("u_byval", ("byval_any", []), ["u64", "u64"]), "UByvalMock")
+usingle(Fn("au_byval", ("byval_any", []), ["u64", "u64"], is_async=True), "AuByvalMock")
 usingle(Fn("und_mutw", ("nodeps", []), ["mutw", "u64"], opts="no_deps"), "UndMutwMock")
 usingle(Fn("und_mutw2", ("nodeps", []), ["u64", "mutw", "mutw"], opts="no_deps"), "UndMutw2Mock")
 usingle(Fn("aund_mutw", ("nodeps", []), ["mutw", "u64"], opts="no_deps", is_async=True), "AundMutwMock")
@@ -2621,6 +2648,10 @@ def arm(fn, ab, is_async, mock=False):
     tc = tc.replace("{args}", args).replace("{AB}", "Mock" if mock else ab).replace(", )", ")")
     dc = dc.replace("{args}", args).replace("{AB}", ab).replace("{ab}", ab.lower()).replace(", )", ")")
     aw = ".await" if fn.is_async else ""
+    if mock and fn.deps[0] == "byval_any":
+        # by value: the un-mocked function must receive the mock object ITSELF
+        tc = f"app.clone().{fn.name}({args})".replace(", )", ")")
+        recv = "sim::name_fp(std::any::type_name::<::unimock::Unimock>()) as usize"
     if mock:
         dc = tc  # the un-mock twin is chosen by the executor, not here
     body = f"        // @C{fn.cid}\n        #[cfg(not(skip_c{fn.cid}))]\n        {fn.method_id} => {{\n"
